@@ -2,8 +2,12 @@
 From Verif Require Import Base.Prelude Base.Decimal Enc.JsonEnc Misc.Level Api.Exec.
 Definition c01_case := (settings * list (bool * list cop) * Z * list op * bytes)%type.
 Definition c01_obs := (option bytes * list N)%type.
+(* Logger.WithLevel(Disabled) returns the nil event: nothing is written and no hook, callback or marshaler
+   of the program runs ([run_chain] models admitted events only; every other level of a case is admitted,
+   the drivers log through loggers and a global level of -128 without a sampler). *)
 Definition c01_run (c : c01_case) : c01_obs :=
-  let '(st, chain, lvl, ops, msg) := c in run_chain st chain lvl ops msg.
+  let '(st, chain, lvl, ops, msg) := c in
+  if (lvl =? Disabled)%Z then (None, []) else run_chain st chain lvl ops msg.
 Definition c01_eqb (a b : c01_obs) : bool :=
   match fst a, fst b with
   | Some x, Some y => list_eqb N.eqb x y
